@@ -23,8 +23,8 @@ Proof.
 Qed.
 
 (* the stored Connection entry never carries a close option, provided hasHeaderValue recognises the close
-   option in every value the handler Sets that has one (it does for values without control characters:
-   clean_value_guard below; it does not after an HTAB) *)
+   option in every value the handler Sets that has one (it does for every RFC field value, i.e. without
+   control characters other than HTAB: clean_value_guard below) *)
 Definition value_guard (v : bytes) : Prop := has_close [v] = true -> hasHeaderValue v strClose = true.
 Definition conn_clean (h : rhdr) : Prop := forall v, rh_conn h = Some v -> has_close [v] = false.
 
@@ -74,13 +74,18 @@ Proof.
 Qed.
 
 (* ================= hasHeaderValue against the RFC list reading ================= *)
-(* bytes of a field value: no control characters (so no HTAB: the scanner's stripSpace only knows SP) *)
-Definition clean (v : bytes) : bool := forallb (fun c => (32 <=? c) && (c <? 256)) v.
+(* bytes of an RFC 9110 field value: VCHAR / obs-text / SP / HTAB — no other control characters
+   (caseInsensitiveCompare's `|0x20` would let a CR pass for '-') *)
+Definition clean_byte (c : N) : bool := ((32 <=? c) || (c =? 9)) && (c <? 256).
+Definition clean (v : bytes) : bool := forallb clean_byte v.
 
-Definition byte_range : list N := map N.of_nat (seq 32 224).
-Lemma in_byte_range c : 32 <= c -> c < 256 -> In c byte_range.
+Definition byte_range : list N := 9 :: map N.of_nat (seq 32 224).
+Lemma in_byte_range c : clean_byte c = true -> In c byte_range.
 Proof.
-  intros H1 H2. unfold byte_range. rewrite <- (N2Nat.id c). apply in_map. apply in_seq. lia.
+  unfold clean_byte. intros H. apply andb_true_iff in H as [H1 H2]. apply N.ltb_lt in H2.
+  apply orb_true_iff in H1 as [H1|H1].
+  - apply N.leb_le in H1. right. rewrite <- (N2Nat.id c). apply in_map. apply in_seq. lia.
+  - apply N.eqb_eq in H1. left. auto.
 Qed.
 
 Definition tchars : list N := strClose ++ strKeepAlive.
@@ -88,56 +93,51 @@ Lemma char_cmp_table :
   forallb (fun t => forallb (fun c => Bool.eqb (N.lor c 32 =? N.lor t 32) (ascii_lower t =? ascii_lower c)) byte_range) tchars = true.
 Proof. vm_compute. reflexivity. Qed.
 
-Lemma char_cmp t c : In t tchars -> 32 <= c -> c < 256 ->
+Lemma char_cmp t c : In t tchars -> clean_byte c = true ->
   (N.lor c 32 =? N.lor t 32) = (ascii_lower t =? ascii_lower c).
 Proof.
-  intros Ht H1 H2. pose proof char_cmp_table as H. rewrite forallb_forall in H. specialize (H t Ht).
-  rewrite forallb_forall in H. specialize (H c (in_byte_range c H1 H2)). apply eqb_prop in H. exact H.
+  intros Ht H1. pose proof char_cmp_table as H. rewrite forallb_forall in H. specialize (H t Ht).
+  rewrite forallb_forall in H. specialize (H c (in_byte_range c H1)). apply eqb_prop in H. exact H.
 Qed.
 
-Lemma clean_cons c v : clean (c :: v) = true -> 32 <= c /\ c < 256 /\ clean v = true.
-Proof.
-  unfold clean. cbn. intros H. apply andb_true_iff in H as [H1 H2]. apply andb_true_iff in H1 as [H0 H1].
-  apply N.leb_le in H0. apply N.ltb_lt in H1. auto.
-Qed.
+Lemma clean_cons c v : clean (c :: v) = true -> clean_byte c = true /\ clean v = true.
+Proof. unfold clean. cbn. intros H. apply andb_true_iff in H. exact H. Qed.
 
 Lemma cic_ci_eq x target : (forall t, In t target -> In t tchars) -> clean x = true ->
   caseInsensitiveCompare x target = ci_eq target x.
 Proof.
   unfold ci_eq. revert target. induction x as [|c x IH]; intros target Ht Hc; destruct target as [|t target]; cbn; auto.
-  apply clean_cons in Hc as (H1 & H2 & H3).
+  apply clean_cons in Hc as (H1 & H3).
   rewrite (char_cmp t c) by (auto; apply Ht; left; reflexivity).
   rewrite IH; auto. intros t' Hin. apply Ht. right. exact Hin.
 Qed.
 
-Lemma clean_not_tab c : 32 <= c -> is_ows c = (c =? 32).
+(* stripSpace is the RFC's OWS trimming *)
+Lemma strip_lead_trim v : strip_lead v = trim_lead_ows v.
+Proof. induction v as [|c v IH]; cbn; [reflexivity|]. unfold is_ows. rewrite IH. reflexivity. Qed.
+
+Lemma strip_trail_trim v : strip_trail v = trim_trail_ows v.
+Proof. induction v as [|c v IH]; cbn; [reflexivity|]. unfold is_ows. rewrite IH. reflexivity. Qed.
+
+Lemma clean_strip_lead v : clean v = true -> clean (strip_lead v) = true.
 Proof.
-  intros H. unfold is_ows. destruct (c =? 9) eqn:H9; [apply N.eqb_eq in H9; lia|]. apply orb_false_r.
+  induction v as [|c v IH]; cbn; [auto|]. intros Hc. pose proof Hc as Hc0. apply clean_cons in Hc as (H1 & H3).
+  destruct ((c =? 32) || (c =? 9)); auto.
 Qed.
 
-Lemma strip_lead_trim v : clean v = true -> strip_lead v = trim_lead_ows v /\ clean (strip_lead v) = true.
+Lemma clean_strip_trail w : clean w = true -> clean (strip_trail w) = true.
 Proof.
-  induction v as [|c v IH]; cbn; [auto|]. intros Hc. pose proof Hc as Hc0. apply clean_cons in Hc as (H1 & H2 & H3).
-  rewrite (clean_not_tab c H1). destruct (c =? 32); [apply IH; exact H3|]. auto.
-Qed.
-
-Lemma strip_trail_trim v : clean v = true -> strip_trail v = trim_trail_ows v.
-Proof.
-  induction v as [|c v IH]; cbn; [auto|]. intros Hc. apply clean_cons in Hc as (H1 & H2 & H3).
-  rewrite (IH H3), (clean_not_tab c H1). reflexivity.
+  induction w as [|c w IH]; cbn; [auto|].
+  intros Hc. apply clean_cons in Hc as (H1 & H3). specialize (IH H3).
+  destruct (strip_trail w) as [|d r] eqn:Hs.
+  - destruct ((c =? 32) || (c =? 9)); [reflexivity|]. unfold clean. cbn. rewrite H1. reflexivity.
+  - unfold clean in *. cbn [forallb]. rewrite H1. exact IH.
 Qed.
 
 Lemma stripSpace_trim v : clean v = true -> stripSpace v = trim_ows v /\ clean (stripSpace v) = true.
 Proof.
-  intros Hc. destruct (strip_lead_trim v Hc) as [H1 H2]. unfold stripSpace, trim_ows. rewrite <- H1.
-  split; [apply strip_trail_trim; exact H2|].
-  (* strip_trail keeps a prefix *)
-  clear H1 Hc. revert H2. generalize (strip_lead v) as w. induction w as [|c w IH]; cbn; [auto|].
-  intros Hc. apply clean_cons in Hc as (H1 & H2 & H3). specialize (IH H3).
-  destruct (strip_trail w) as [|d r] eqn:Hs.
-  - destruct (c =? 32); [reflexivity|]. unfold clean. cbn.
-    apply N.leb_le in H1. apply N.ltb_lt in H2. rewrite H1, H2. reflexivity.
-  - unfold clean in *. cbn [forallb]. apply N.leb_le in H1. apply N.ltb_lt in H2. rewrite H1, H2. exact IH.
+  intros Hc. unfold stripSpace, trim_ows. rewrite strip_trail_trim, strip_lead_trim. split; [reflexivity|].
+  rewrite <- strip_lead_trim, <- strip_trail_trim. apply clean_strip_trail, clean_strip_lead. exact Hc.
 Qed.
 
 Lemma clean_rev v : clean v = true -> clean (rev v) = true.
@@ -164,10 +164,10 @@ Proof.
   - destruct cur as [|x cur]; cbn.
     + rewrite ci_eq_nil_r by exact Hne. reflexivity.
     + rewrite orb_false_r. rewrite orb_false_r. apply token_agree; auto. apply (clean_rev (x :: cur)). exact Hcur.
-  - apply clean_cons in Hb as (H1 & H2 & H3). destruct (c =? 44).
+  - apply clean_cons in Hb as (H1 & H3). destruct (c =? 44).
     + cbn. rewrite (token_agree target (rev cur)) by (auto; apply clean_rev; exact Hcur).
       f_equal. apply IH; auto.
-    + apply IH; auto. unfold clean in *. cbn [forallb]. apply N.leb_le in H1. apply N.ltb_lt in H2. rewrite H1, H2. exact Hcur.
+    + apply IH; auto. unfold clean in *. cbn [forallb]. rewrite H1. exact Hcur.
 Qed.
 
 Lemma elements_filter target L : target <> [] ->
@@ -268,10 +268,10 @@ Proof.
   destruct ic; cbn; rewrite andb_false_r; unfold client_close_conn; rewrite !orb_true_r; reflexivity.
 Qed.
 
-(* FULL STATEMENTS without the `clean` guard are false: the scanner strips SP only, so a close option
-   behind an HTAB (optional whitespace in RFC 9110) is not recognised *)
+(* regression witness: a close option behind an HTAB (optional whitespace in RFC 9110) is recognised —
+   before the repair of stripSpace it was not *)
 Definition htab_value : bytes := s2b "keep-alive," ++ [9] ++ s2b "close".
-Theorem req_flag_refuted : has_close [htab_value] = true /\ wants_close true [htab_value] = true
-  /\ req_conn_flag false false [htab_value] = false
-  /\ client_close_conn false false (resp_conn_flag false false [htab_value]) = false.
+Example htab_witness : clean htab_value = true /\ has_close [htab_value] = true
+  /\ req_conn_flag false false [htab_value] = true
+  /\ client_close_conn false false (resp_conn_flag false false [htab_value]) = true.
 Proof. vm_compute. repeat split; reflexivity. Qed.
